@@ -338,6 +338,29 @@ func c06Corpus(r *rt.Rec, which int, rng *rand.Rand, n int) {
 		var vs []uval
 		for _, x := range c06Nodes(rng, n) {
 			vs = append(vs, nodeVal(x))
+			// the same value obtained another way: printed and parsed back (a
+			// minted blank node and its parsed twin are one node)
+			if y, err := node.Parse(x.String()); err == nil && cv.Node(y) == cv.Node(x) {
+				vs = append(vs, nodeVal(y))
+			}
+		}
+		for i := 0; i < 20; i++ {
+			b := node.NewBlankNode()
+			vs = append(vs, nodeVal(b))
+			if y, err := node.Parse(b.String()); err == nil {
+				vs = append(vs, nodeVal(y))
+			}
+			if y, err := node.NewNodeFromStrings(b.Type().String(), b.ID().String()); err == nil {
+				vs = append(vs, nodeVal(y))
+			}
+			// labels that spell the same hexadecimal digits differently are
+			// different ids
+			id := b.ID().String()
+			for _, alt := range []string{strings.ToUpper(id), strings.ReplaceAll(id, "-", ""), "urn:uuid:" + id, "{" + id + "}"} {
+				if y, err := node.NewNodeFromStrings("/_", alt); err == nil {
+					vs = append(vs, nodeVal(y))
+				}
+			}
 		}
 		r.Eval(analyse(r, "node", vs))
 		r.Sample(map[string]string{"kind": "node", "example": vs[len(vs)/2].show, "uuid": vs[len(vs)/2].uuid})
@@ -345,6 +368,9 @@ func c06Corpus(r *rt.Rec, which int, rng *rand.Rand, n int) {
 		var vs []uval
 		for _, x := range c06Preds(rng, n) {
 			vs = append(vs, predVal(x))
+			if y, err := predicate.Parse(x.String()); err == nil && cv.Pred(y) == cv.Pred(x) {
+				vs = append(vs, predVal(y))
+			}
 		}
 		r.Eval(analyse(r, "predicate", vs))
 		r.Sample(map[string]string{"kind": "predicate", "example": vs[len(vs)/2].show, "uuid": vs[len(vs)/2].uuid})
@@ -352,6 +378,9 @@ func c06Corpus(r *rt.Rec, which int, rng *rand.Rand, n int) {
 		var vs []uval
 		for _, x := range c06Lits(rng, n) {
 			vs = append(vs, litVal(x))
+			if y, err := literal.DefaultBuilder().Parse(x.String()); err == nil && cv.Lit(y) == cv.Lit(x) {
+				vs = append(vs, litVal(y))
+			}
 		}
 		r.Eval(analyse(r, "literal", vs))
 	case 3:
